@@ -35,6 +35,7 @@ namespace L = etl;
 static char const* const INST = "etl";
 #endif
 
+#include <csignal>
 #include <cstddef>
 #include <functional>
 
@@ -112,6 +113,25 @@ struct F<wchar_t> {
 
 static long sign(long x) { return x < 0 ? -1 : (x > 0 ? 1 : 0); }
 
+// A call that terminates the process (SIGSEGV, SIGFPE, ...) is an observation too: the event of the call in flight
+// is logged with "crash": <signal> (the trace spec reports it as a deviation) and the process stops; the remaining
+// vectors of this process are not executed (stderr: CRASH ...).
+static json* g_cur = nullptr;
+static void on_crash(int sig)
+{
+    if (g_cur != nullptr) {
+        (*g_cur)["crash"] = sig;
+        std::cout << g_cur->dump() << std::endl;
+        std::fprintf(stderr, "CRASH signal %d in %s; the remaining vectors of this process were not executed\n", sig,
+                     (*g_cur)["op"].get<std::string>().c_str());
+    }
+    std::_Exit(0);
+}
+static void install_crash_handler()
+{
+    for (int sig : {SIGSEGV, SIGBUS, SIGFPE, SIGILL, SIGABRT}) { std::signal(sig, on_crash); }
+}
+
 // ---------------------------------------------------------------------------------------------
 // one heap block  G A G B G  (+ unlogged slack so that a wild write cannot corrupt the heap)
 // ---------------------------------------------------------------------------------------------
@@ -178,20 +198,21 @@ static void call(char const* op, int cv, Cells const& A, Cells const& B, long po
 template <typename C, typename Fn>
 static void run_block(Block<C>& blk, char const* op, int cv, long p, long q, long n, long c, Fn fn)
 {
-    json pre = blk.snap();
-    long ret = fn(blk, blk.base + p, blk.base + q);
     json e;
     e["op"]   = op;
     e["w"]    = F<C>::W;
     e["cv"]   = cv;
-    e["mem"]  = std::move(pre);
+    e["mem"]  = blk.snap();
     e["p"]    = p;
     e["q"]    = q;
     e["n"]    = n;
     e["c"]    = c;
+    e["inst"] = INST;
+    g_cur     = &e;
+    long ret  = fn(blk, blk.base + p, blk.base + q);
+    g_cur     = nullptr;
     e["post"] = blk.snap();
     e["ret"]  = ret;
-    e["inst"] = INST;
     vh::emit(e);
 }
 
@@ -543,6 +564,7 @@ static void do_event(json const& ev)
 int main(int argc, char** argv)
 {
     std::ios::sync_with_stdio(false);
+    install_crash_handler();
     if (argc >= 3 && std::string(argv[1]) == "replay") {
         for (auto const& v : vh::read_ndjson(argv[2])) {
             std::string k = v["k"];
